@@ -281,6 +281,18 @@ func TIte(c, a, b *Term) *Term {
 			}
 			return TNot(c)
 		}
+		if a.kind == KConst {
+			if a.b {
+				return TOr(c, b)
+			}
+			return TAnd(TNot(c), b)
+		}
+		if b.kind == KConst {
+			if b.b {
+				return TOr(TNot(c), a)
+			}
+			return TAnd(c, a)
+		}
 	}
 	return mkApp("ite", a.sort, false, c, a, b)
 }
